@@ -1,6 +1,7 @@
 package main
 
 import (
+	"fmt"
 	"encoding/json"
 	"math/rand"
 	"os"
@@ -33,7 +34,7 @@ type c03Step struct {
 
 type c03Case struct {
 	engCase
-	Kind  string    `json:"kind"` // index | history
+	Kind  string    `json:"kind"` // index | bigindex | history
 	Index *c03Index `json:"index,omitempty"`
 	Steps []c03Step `json:"steps,omitempty"`
 }
@@ -182,6 +183,19 @@ func c03One(r *rand.Rand, id int, seed int64, kind string, dir string, from *c03
 		cmds = eGenDB(r)
 		q := eGenQuery(r, cmds)
 		c.Query, c.Opts, c.Recased = ints(q), eGenOpts(r, len(cmds), cmds), ints(q)
+		if id%100 == 13 {
+			// a database as large as real ones (over a thousand entries, not a round number of them), tiny texts: every
+			// entry, the last ones included, must be in the index; the query names one of the last entries and a common word
+			n := 1024 + 1 + r.Intn(15)
+			cmds = cmds[:0]
+			for i := 0; i < n; i++ {
+				cmds = append(cmds, database.Command{Command: fmt.Sprintf("t%d", i), Description: fmt.Sprintf("%s u%dq", ePlain[i%5], i)})
+			}
+			q = fmt.Sprintf("u%dq %s", n-1-r.Intn(3), ePlain[r.Intn(5)])
+			c.Query, c.Recased = ints(q), ints(q)
+			c.Opts = eOpts{AllPlatforms: true, Limit: []int{3, n + 5}[r.Intn(2)]}
+			c.Kind = "bigindex"
+		}
 	}
 	c.Opts.NLP = false
 	engRun(&c.engCase, cmds, dir)
